@@ -5,8 +5,10 @@ import (
 	"errors"
 	"fmt"
 	"math/big"
+	"os"
 	"runtime/debug"
 	"sort"
+	"strconv"
 	"strings"
 	"time"
 
@@ -180,7 +182,14 @@ func copyVars(v map[string]string) map[string]string {
 
 // Timeout of one protected execution. Numscript programs of the bounded grammar finish in
 // microseconds; anything slower than this is reported as a hang.
-var ExecTimeout = 10 * time.Second
+var ExecTimeout = func() time.Duration {
+	if v := os.Getenv("VH_EXEC_TIMEOUT_MS"); v != "" {
+		if n, err := strconv.Atoi(v); err == nil && n > 0 {
+			return time.Duration(n) * time.Millisecond
+		}
+	}
+	return 10 * time.Second
+}()
 
 // protect runs f with panic recovery and a timeout.
 func protect(runtimeName string, f func(r *Result)) Result {
